@@ -74,6 +74,17 @@ def gen_cases(rng, tier):
         else:
             b = ('A' + ''.join(chr(rng.choice([0xe4, 0xff, 0x80, 0x41])) for _ in range(n))).encode('latin-1')
         cases.append([b, b'', 0])
+    # text that is not valid UTF-8 as a whole but contains well-formed multi-byte sequences (before and behind the
+    # offending bytes): the fallback has to treat the whole file alike
+    pieces = [b'A', b'MotorOel ', '\u00d6l'.encode('utf-8'), '\u20ac'.encode('utf-8'), '\U0001F600'.encode('utf-8'), b'\xf6\xdf', b'\xe4',
+              b'\x80', b'\xc3', b'\xe2\x82', b'\xff', b' "', b'" ', b'\n']
+    for i in range(400 if tier == 'quick' else 20000):
+        b = b'A' + b''.join(rng.choice(pieces) for _ in range(rng.randrange(2, 9)))
+        try:
+            b.decode('utf-8')
+            cases.append([b, b, 2])                                        # valid UTF-8 after all: stays as it is
+        except UnicodeDecodeError:
+            cases.append([b, b.decode('latin-1').encode('utf-8'), 2])      # every byte is one Latin-1 character
     return cases
 
 
@@ -93,7 +104,7 @@ def oracle(case, impl_line):
     if case[2]:
         if r[1] != case[1]:
             return 'decoded text differs from the original text (first bytes %r)' % case[0][:12]
-        if r[2] != 1:
+        if case[2] == 1 and r[2] != 1:
             return 'load(file) and load_from_string(text) disagree: %s' % r[3].decode('utf-8', 'replace')
     return None
 
